@@ -2,6 +2,7 @@ pub mod apstress;
 pub mod c03;
 pub mod c05;
 pub mod c06;
+pub mod c08;
 pub mod c10;
 pub mod c13;
 pub mod ident;
@@ -11,6 +12,7 @@ pub mod rpc;
 pub mod conn;
 pub mod smoke;
 pub mod tables;
+pub mod teardown;
 pub mod tower;
 pub mod wire;
 
@@ -48,6 +50,8 @@ pub fn dispatch(args: &[String]) -> i32 {
         "c05" => c05::main(&a),
         "c03" => c03::main(&a),
         "c06" => c06::main(&a),
+        "c08" => c08::main(&a),
+        "teardown" => teardown::main(&a),
         "apstress" => apstress::main(&a),
         "c10" => c10::main(&a),
         "c13" => c13::main(&a),
